@@ -9,5 +9,6 @@ func main() {
 		"c07": c07,
 		"c08": c08,
 		"c02": c02,
+		"c01": c01,
 	})
 }
